@@ -117,6 +117,16 @@ CHECKS = {
         note="The decoder is a hand model of what the pattern denotes; its tie to the regex is the differential run (ids, junk "
              "strings with newlines and digit runs). Known finding K1 (8-digit respins).",
         design="DESIGN.md section 6 C15"),
+    "C18": dict(
+        text="Coq effect model of dump(path): C18_dump_atomic (a failed dump leaves every file, the destination included, as it "
+             "was; none is created), C18_dump_ok_writes, and C18_open_first_refuted (the validate/open/serialise order the code "
+             "used to have does not have the property: defect D1, fixed). The model is tied to the code by exhaustive fault "
+             "enumeration on real files: for each of the seven formats every validator of every class reachable during the "
+             "dump (from the regenerated inventory) is made to fail, one at a time, with and without a pre-existing file, plus a "
+             "really invalid nested value; bytes and existence of the destination are compared before/after.",
+        note="The theorem is about a three-line effect model; the assurance comes from the enumeration being complete over the "
+             "regenerated validator inventory. OS semantics of open/write trusted; URL destinations not modelled.",
+        design="DESIGN.md section 6 C18"),
     "C19": dict(
         text="Generic Coq theorems about the backtracking matcher: C19_same_matcher (the step-counting matcher computes the same "
              "result as the matcher proved sound and complete against the declarative regex semantics), C19_steps_poly / "
